@@ -22,6 +22,22 @@ mod fsutil;
 mod lt;
 mod util;
 
+/// A panic inside the code under test is an observation ("panic"), never a crash of the harness:
+/// the driver reports the case as the failing input.
+fn guard(case: &Value, f: fn(&Value) -> Value) -> Value {
+    match std::panic::catch_unwind(std::panic::AssertUnwindSafe(|| f(case))) {
+        Ok(v) => v,
+        Err(e) => {
+            let msg = e
+                .downcast_ref::<String>()
+                .cloned()
+                .or_else(|| e.downcast_ref::<&str>().map(|s| (*s).to_string()))
+                .unwrap_or_else(|| "non-string panic payload".to_string());
+            serde_json::json!({"id": case["id"], "panic": msg})
+        }
+    }
+}
+
 fn main() {
     let args: Vec<String> = std::env::args().collect();
     if args.get(1).map(String::as_str) == Some("c19_child") {
@@ -51,22 +67,22 @@ fn main() {
     let input: Value = serde_json::from_str(&std::fs::read_to_string(&args[2]).expect("read cases")).expect("parse cases");
     let cases = input["cases"].as_array().expect("cases array");
     let observed: Vec<Value> = match args[1].as_str() {
-        "c01" => cases.iter().map(c01::run).collect(),
-        "c02" => cases.iter().map(c02::run).collect(),
-        "c03" => cases.iter().map(c03::run).collect(),
-        "c04" => cases.iter().map(c04::run).collect(),
-        "c07" => cases.iter().map(c07::run).collect(),
-        "c08" => cases.iter().map(c08::run).collect(),
-        "c09" => cases.iter().map(c09::run).collect(),
-        "c19" => cases.iter().map(c19::run).collect(),
-        "c20" => cases.iter().map(c20::run).collect(),
-        "fsops" => cases.iter().map(fsops::run).collect(),
-        "c11" => cases.iter().map(c11::run).collect(),
-        "c12" => cases.iter().map(c12::run).collect(),
-        "c13" => cases.iter().map(c13::run).collect(),
-        "c14" => cases.iter().map(c14::run).collect(),
-        "c18" => cases.iter().map(c18::run).collect(),
-        "lt" => cases.iter().map(lt::run).collect(),
+        "c01" => cases.iter().map(|c| guard(c, c01::run)).collect(),
+        "c02" => cases.iter().map(|c| guard(c, c02::run)).collect(),
+        "c03" => cases.iter().map(|c| guard(c, c03::run)).collect(),
+        "c04" => cases.iter().map(|c| guard(c, c04::run)).collect(),
+        "c07" => cases.iter().map(|c| guard(c, c07::run)).collect(),
+        "c08" => cases.iter().map(|c| guard(c, c08::run)).collect(),
+        "c09" => cases.iter().map(|c| guard(c, c09::run)).collect(),
+        "c19" => cases.iter().map(|c| guard(c, c19::run)).collect(),
+        "c20" => cases.iter().map(|c| guard(c, c20::run)).collect(),
+        "fsops" => cases.iter().map(|c| guard(c, fsops::run)).collect(),
+        "c11" => cases.iter().map(|c| guard(c, c11::run)).collect(),
+        "c12" => cases.iter().map(|c| guard(c, c12::run)).collect(),
+        "c13" => cases.iter().map(|c| guard(c, c13::run)).collect(),
+        "c14" => cases.iter().map(|c| guard(c, c14::run)).collect(),
+        "c18" => cases.iter().map(|c| guard(c, c18::run)).collect(),
+        "lt" => cases.iter().map(|c| guard(c, lt::run)).collect(),
         other => {
             eprintln!("unknown stream {other}");
             std::process::exit(2);
